@@ -119,9 +119,14 @@ func VxB_SWR() {
 	slow := vxChoice("bg.slow", 2) == 1
 	// the entry may be evicted (by another process, an unsafe request, a cleaner) between
 	// the foreground read and the background goroutine's own read
-	evicted := vxChoice("bg.evicted", 2) == 1
+	// or the request carries no-store: whatever the background exchange brings is not stored
+	scen := vxChoice("bg.scenario", 3)
+	evicted, reqNoStore := scen == 1, scen == 2
 	if evicted {
 		w.conn.evictKey, w.conn.evictAfter = id, 2
+	}
+	if reqNoStore {
+		reqHdr["Cache-Control"] = []string{"no-store"}
 	}
 	timeoutSeen := time.Duration(-1)
 	var bgReq *http.Request
@@ -191,7 +196,16 @@ func VxB_SWR() {
 	vxAssert(vxSameHeader(resp.Header, snapshot), "C16/returned-response-modified-after-return")
 	_, inm := reqHdr["If-None-Match"]
 	_, ims := reqHdr["If-Modified-Since"]
-	vxAssert(len(reqHdr) == 2 && !inm && !ims, "C16/caller-request-modified")
+	nreq := 2
+	if reqNoStore {
+		nreq = 3
+	}
+	vxAssert(len(reqHdr) == nreq && !inm && !ims, "C16/caller-request-modified")
+	if reqNoStore {
+		vxCover("swr/request-no-store")
+		vxAssert(w.conn.count("set") == 0, "C06/stored-what-must-not-be-stored")
+		return
+	}
 
 	if evicted {
 		vxCover("swr/evicted-in-flight")
